@@ -11,6 +11,7 @@ import sys
 import threading
 
 from . import gen, impl, suites
+from . import api
 from .api import (OMIT, call_predict, call_rate, eff_limit, eff_tau, hexnums, nums_of, order_vals, rate_nums,
                   teams_val, ulp)
 from .gen import KINDS
@@ -87,6 +88,7 @@ def _keys_or_default(c):
 def mon_C02(rng, budget, tier):
     mon = Mon("C02")
     for i in range(budget):
+        api.pool(i % 2 == 0)
         c = _valid_rate_case(rng, kind=KINDS[i % 5])
         if i % 3 == 0:   # force limit_sigma on / off explicitly
             c["args"][4] = ("B", bool(i % 2))
@@ -124,6 +126,31 @@ def mon_C02(rng, budget, tier):
             mon.fail("passed objects", c, "mixture of passed objects and copies in the result", same)
         if mon.full:
             break
+    # two rate calls on disjoint ratings through ONE shared model, interleaved at attribute accesses
+    for it in range(max(10, budget // 200)):
+        if mon.full:
+            break
+        kind = KINDS[it % 5]
+        st = gen.gen_state(rng)
+
+        def mk(k, kind=kind, st=st):
+            c = _valid_rate_case(rng, kind=kind, state=st)
+            teams = c["args"][0]
+            n = len(teams[1])
+            order = list(range(n))
+            rng.shuffle(order)
+            ids = [[p[4] for p in t[1]] for t in teams[1]]
+
+            def thunk(m, teams=teams, order=order):
+                objs = to_python(teams)
+                res = m.rate(objs, ranks=[float(r) for r in order])
+                return [[int(p.id, 16) for p in t] for t in res]
+
+            def chk(r, ids=ids):
+                return None if r == ids else "result ids %s, input ids %s" % (r, ids)
+            return thunk, chk, {"teams": teams, "ranks": order}
+        threads_probe(mon, rng, kind, st, mk)
+    api.pool(False)
     return mon
 
 
@@ -136,6 +163,7 @@ def mon_C03(rng, budget, tier):
     while mon.evaluations < budget and not mon.full:
         kind = KINDS[i % 5]
         i += 1
+        api.pool(i % 2 == 0)
         st = gen.gen_state(rng)
         shape = gen.gen_shape(rng, max_teams=6)
         n = len(shape)
@@ -173,6 +201,25 @@ def mon_C03(rng, budget, tier):
             if got != base:
                 mon.fail("relabelling (%s, %s)" % (e, sel), case,
                          "result differs from the result for the dense ranks %s" % order, {"base": base, "got": got})
+        # the same vector given first as ranks and then as scores to ONE model object: scores=v must equal ranks=-v
+        if i % 2 == 0 and not mon.full:
+            vals, e = gen.encode_order(rng, order)
+            m = make_model(kind, st)
+            case = {"kind": kind, "st": st, "nums": nums, "order": order, "enc": e, "vals": vals, "tau": tau, "lim": lim,
+                    "sequence": ["rate(ranks=v)", "rate(scores=v)"]}
+            mon.case(case)
+            try:
+                call_rate(kind, st, nums, ranks=("L", vals), tau=tau, lim=lim, model=m)
+                got = hexnums(call_rate(kind, st, nums, scores=("L", vals), tau=tau, lim=lim, model=m)[0])
+                want = hexnums(call_rate(kind, st, nums, ranks=("L", [gen.neg_val(v) for v in vals]), tau=tau, lim=lim,
+                                         model=make_model(kind, st))[0])
+            except Exception as ex:  # noqa: BLE001
+                mon.fail("relabelling raised", case, "%s: %s" % (type(ex).__name__, ex))
+                continue
+            if got != want:
+                mon.fail("scores equal ranks negated (same model object, ranks=v then scores=v)", case,
+                         "scores=v gives %s, ranks=-v gives %s" % (str(got)[:300], str(want)[:300]))
+    api.pool(False)
     return mon
 
 
@@ -191,6 +238,7 @@ def mon_C04(rng, budget, tier):
     while mon.evaluations < budget and not mon.full:
         kind = KINDS[i % 5]
         i += 1
+        api.pool(i % 2 == 0)
         c = _valid_rate_case(rng, kind=kind)
         teams, ranks, scores, tau, lim = c["args"]
         if tau[0] == "B":
@@ -232,6 +280,7 @@ def mon_C04(rng, budget, tier):
                     if not (_close_mu(a[0], b[0], sc) or abs(a[0] - b[0]) <= allow) or not _close_rel(a[1], b[1], srel):
                         mon.fail("permutation", case, "player [%d][%d] gets %s in the original listing and %s after "
                                  "reordering (sigma tolerance %.1e)" % (o, j, a, b, srel))
+    api.pool(False)
     return mon
 
 
@@ -253,6 +302,7 @@ def mon_C05(rng, budget, tier):
     while mon.evaluations < budget and not mon.full:
         kind = KINDS[i % 5]
         i += 1
+        api.pool(i % 2 == 0)
         st = gen.gen_state(rng)
         st["limit"] = rng.random() < 0.2
         which = i % 4
@@ -372,6 +422,7 @@ def mon_C05(rng, budget, tier):
                                 mon.fail("identical teams ordered by place", case,
                                          "identical teams %d (place %d) and %d (place %d): player %d ends at %r vs %r" % (
                                              x, order[x], y, order[y], j, r[x][j][0], r[y][j][0]))
+    api.pool(False)
     return mon
 
 
@@ -398,6 +449,7 @@ def mon_C06(rng, budget, tier):
     while mon.evaluations < n_single and not mon.full:
         kind = KINDS[i % 5]
         i += 1
+        api.pool(i % 2 == 0)
         c = _valid_rate_case(rng, kind=kind)
         teams, ranks, scores, tau, lim = c["args"]
         if tau[0] == "B":
@@ -465,6 +517,7 @@ def mon_C06(rng, budget, tier):
                         s0[x] = min(s0[x], pl[x].sigma)
             if mon.full:
                 break
+    api.pool(False)
     return mon
 
 
@@ -476,6 +529,7 @@ def mon_C07(rng, budget, tier):
     while mon.evaluations < budget and not mon.full:
         kind = KINDS[i % 5]
         i += 1
+        api.pool(i % 2 == 0)
         c = _valid_rate_case(rng, kind=kind)
         teams, ranks, scores, tau, lim = c["args"]
         if tau[0] == "B":
@@ -516,6 +570,7 @@ def mon_C07(rng, budget, tier):
             mon.fail("precision-weighted mu change sums to zero", case,
                      "sum_i (sum_j dmu_ij)/var_i = %r, tolerance %r, TM tie allowance %r" % (total, tol, allow),
                      {"om": om, "ss": ss})
+    api.pool(False)
     return mon
 
 
@@ -561,11 +616,22 @@ def mon_C08(rng, budget, tier):
             shape = [rng.choice([2, 3, 5, 10, 13, 16, 16, 16]) for _ in range(n)]
             nums = [[((m_ if (t + (sign > 0)) % 2 == 0 else -m_) * beta, sg_ * beta) for _ in range(sz)]
                     for t, sz in enumerate(shape)]
+        elif rng.random() < 0.25:
+            # many teams, one or two very uncertain players among well-established opponents with close means
+            n = rng.choice([6, 7, 8])
+            base = rng.uniform(-18, 18)
+            nums = []
+            for t in range(n):
+                sz = rng.choice([1, 1, 2, 3])
+                unc = t < rng.choice([1, 1, 2])
+                nums.append([((base + rng.uniform(-1, 1)) * beta,
+                              (rng.uniform(3, 10) if unc and j == 0 else gen.logu(rng, 1e-4, 0.3)) * beta) for j in range(sz)])
+            rng.shuffle(nums)
         order = gen.random_weak_order(rng, n)
         if rng.random() < 0.5:      # the favourite finishing first / last
             th = [sum(m for m, _ in t) for t in nums]
             order = [sorted(th, reverse=rng.random() < 0.5).index(x) for x in th]
-        op = ["rate", "rate", "pwin", "pdraw", "prank"][i % 5]
+        op = ["rate", "rate", "rate", "pwin", "pdraw", "prank"][(i // 5) % 6]     # every kind meets every operation
         case = {"op": op, "kind": kind, "st": st, "nums": nums, "order": order}
         mon.case(case)
         mon.count("op:" + op)
@@ -670,6 +736,27 @@ def mon_C09(rng, budget, tier):
         p = call_predict("pwin", kind, st, nums, alias=alias)
         if abs(math.fsum(p) - 1.0) > 1e-12:
             mon.fail("sums to one", case, "sum = %r" % math.fsum(p), p)
+    # predict_win calls on different games through ONE shared model, interleaved at attribute accesses
+    for it in range(max(10, budget // 200)):
+        if mon.full:
+            break
+        kind = KINDS[it % 5]
+        st = gen.gen_state(rng)
+
+        def mk(k, kind=kind, st=st):
+            _, nums = _predict_game(rng)
+            tv = teams_val(kind, nums)
+            want = call_predict("pwin", kind, st, tv)
+
+            def thunk(m, tv=tv):
+                return m.predict_win(to_python(tv))
+
+            def chk(r, want=want):
+                if len(r) != len(want) or abs(math.fsum(r) - 1.0) > 1e-12:
+                    return "sum = %r, %d values for %d teams" % (math.fsum(r), len(r), len(want))
+                return None if all(abs(a - b) <= 1e-12 for a, b in zip(r, want)) else "values %s differ from the values of the same call alone %s" % (r, want)
+            return thunk, chk, {"nums": nums}
+        threads_probe(mon, rng, kind, st, mk, nthreads=rng.choice([2, 3]))
     # exactly-identical two-team games, many values
     for _ in range(min(200, budget // 10)):
         kind = rng.choice(KINDS)
@@ -691,6 +778,7 @@ def mon_C10(rng, budget, tier):
     while mon.evaluations < budget and not mon.full:
         kind = KINDS[i % 5]
         i += 1
+        api.pool(i % 2 == 0)
         st, nums = _predict_game(rng)
         if i % 7 == 0:
             nums = [[(mu, rng.choice([0.0, 1e-300, 1e-9]) * st["beta"]) for mu, _ in t] for t in nums]
@@ -731,6 +819,30 @@ def mon_C10(rng, budget, tier):
         # totals are equal only up to rounding of the shift: ~ ulp(theta)/s per pair in the argument of Phi
         if d4 < d - 1e-12:
             mon.fail("equalising the teams lowers the draw probability", case, "%r -> %r" % (d, d4))
+    # predict_draw calls on games of different sizes through ONE shared model, interleaved at attribute accesses
+    for it in range(max(10, budget // 200)):
+        if mon.full:
+            break
+        kind = KINDS[it % 5]
+        st = gen.gen_state(rng)
+
+        def mk(k, kind=kind, st=st):
+            _, nums = _predict_game(rng, max_teams=2 + 2 * k)
+            tv = teams_val(kind, nums)
+            perm = list(range(len(nums)))
+            rng.shuffle(perm)
+            tv2 = teams_val(kind, [nums[o] for o in perm])
+
+            def thunk(m, tv=tv, tv2=tv2):
+                return (m.predict_draw(to_python(tv)), m.predict_draw(to_python(tv2)))
+
+            def chk(r):
+                if not (0.0 <= r[0] <= 1.0 + 1e-15):
+                    return "predict_draw = %r outside [0, 1]" % (r[0],)
+                return None if abs(r[0] - r[1]) <= 1e-12 else "%r vs %r after reordering the teams" % r
+            return thunk, chk, {"nums": nums, "perm": perm}
+        threads_probe(mon, rng, kind, st, mk, nthreads=rng.choice([2, 3]))
+    api.pool(False)
     return mon
 
 
@@ -742,6 +854,7 @@ def mon_C11(rng, budget, tier):
     while mon.evaluations < budget and not mon.full:
         kind = KINDS[i % 5]
         i += 1
+        api.pool(i % 2 == 0)
         st, nums = _predict_game(rng)
         n = len(nums)
         mode = i % 4
@@ -778,6 +891,7 @@ def mon_C11(rng, budget, tier):
             tot = math.fsum(probs) + d
             if abs(tot - 1.0) > 1e-9:
                 mon.fail("rank probabilities + draw = 1", case, "sum %r + draw %r = %r" % (math.fsum(probs), d, tot))
+    api.pool(False)
     return mon
 
 
@@ -828,6 +942,7 @@ def mon_C12(rng, budget, tier):
     while mon.evaluations < budget and not mon.full:
         kind = KINDS[i % 5]
         i += 1
+        api.pool(i % 2 == 0)
         st, nums = _predict_game(rng)
         n = len(nums)
         betas_seen.add(st["beta"])
@@ -843,7 +958,50 @@ def mon_C12(rng, budget, tier):
             mon.fail("predict_draw closed form", case, "impl %r / formula %r" % (pd, draw))
         if len(pr) != n or any(abs(a[1] - b) > 1e-9 for a, b in zip(pr, rank)):
             mon.fail("predict_rank closed form", case, "impl %s / formula %s" % ([a[1] for a in pr], rank))
+    # the same model object and the SAME rating objects seen again after their values changed (rate() writes into
+    # the passed objects; users assign .mu/.sigma), and the same list object at several positions
+    j = 0
+    while j < max(40, budget // 10) and not mon.full:
+        kind = KINDS[j % 5]
+        j += 1
+        st, nums = _predict_game(rng)
+        n = len(nums)
+        m = make_model(kind, st)
+        objs = to_python(teams_val(kind, nums))
+        alias = []
+        if j % 3 == 0 and n >= 3:
+            a_, b_ = rng.sample(range(n), 2)
+            objs[b_] = objs[a_]
+            nums[b_] = nums[a_]
+            alias = [(b_, a_)]
+        try:
+            m.predict_win(objs), m.predict_draw(objs), m.predict_rank(objs)
+            step = rng.choice(["assign", "rate", "assign"])
+            if step == "rate" and not alias:
+                m.rate(objs, ranks=[rng.randrange(3) for _ in range(n)])
+            else:
+                for t in {id(t): t for t in objs}.values():
+                    for pl in t:
+                        pl.mu = pl.mu + rng.uniform(-1, 1) * st["beta"]
+                        pl.sigma = pl.sigma * rng.choice([0.5, 0.9, 1.5])
+            nums2 = [[(pl.mu, pl.sigma) for pl in t] for t in objs]
+            case = {"kind": kind, "st": st, "nums_before": nums, "nums_now": nums2, "sequence": ["predict_*", step, "predict_*"],
+                    "same_list_object_at": alias}
+            mon.case(case)
+            mon.count("sequence on the same objects")
+            win, draw, rank = spec_predict(st, nums2)
+            pw, pd, pr = m.predict_win(objs), m.predict_draw(objs), m.predict_rank(objs)
+        except Exception as ex:  # noqa: BLE001
+            mon.fail("valid call raised", {"kind": kind, "st": st, "nums": nums}, "%s: %s" % (type(ex).__name__, ex))
+            continue
+        if len(pw) != n or any(abs(a - b) > 1e-9 for a, b in zip(pw, win)):
+            mon.fail("predict_win closed form", case, "impl %s / formula %s" % (pw, win))
+        if abs(pd - draw) > 1e-9:
+            mon.fail("predict_draw closed form", case, "impl %r / formula %r" % (pd, draw))
+        if len(pr) != n or any(abs(a[1] - b) > 1e-9 for a, b in zip(pr, rank)):
+            mon.fail("predict_rank closed form", case, "impl %s / formula %s" % ([a[1] for a in pr], rank))
     mon.count("distinct betas in one process", len(betas_seen))
+    api.pool(False)
     return mon
 
 
@@ -947,6 +1105,54 @@ def _sched_model(kind, st):
     if g is not None:
         kw["gamma"] = g
     return SModel(**kw)
+
+
+def run_interleaved(kind, st, thunks, schedule):
+    """run thunks[k](model) in one thread each on ONE shared model object, switching threads only at accesses to the
+    model's attributes, in the order given by schedule; returns the list of results (or 'EXC ...' strings)"""
+    m = _sched_model(kind, st)
+    n = len(thunks)
+    sch = _Sched(schedule, n)
+    out = [None] * n
+
+    def work(k):
+        _tls.sched = (sch, k)
+        try:
+            out[k] = thunks[k](m)
+        except Exception as ex:  # noqa: BLE001
+            out[k] = "EXC %s: %s" % (type(ex).__name__, ex)
+        finally:
+            _tls.sched = None
+            sch.finish(k)
+    ths = [threading.Thread(target=work, args=(k,)) for k in range(n)]
+    for t in ths:
+        t.start()
+    for t in ths:
+        t.join(30)
+    return out
+
+
+def threads_probe(mon, rng, kind, st, mk_thunk_and_check, nthreads=2, nsched=4):
+    """mk_thunk_and_check(k) -> (thunk(model) -> result, check(result) -> None or failure text, description).
+    Each thunk runs alone first (its own check must pass there), then all run interleaved under random schedules and
+    each result is judged by the same check."""
+    items = [mk_thunk_and_check(k) for k in range(nthreads)]
+    for th, chk, desc in items:
+        r = th(make_model(kind, st))
+        if chk(r) is not None:
+            return            # judged by the sequential part of the monitor
+    for _ in range(nsched):
+        schedule = [rng.randrange(nthreads) for _ in range(60)]
+        outs = run_interleaved(kind, st, [it[0] for it in items], schedule)
+        case = {"kind": kind, "st": st, "threads": [it[2] for it in items], "schedule": schedule}
+        mon.case(case)
+        mon.count("interleaved calls on one model")
+        for k, (th, chk, desc) in enumerate(items):
+            bad = ("raised: " + outs[k]) if isinstance(outs[k], str) and outs[k].startswith("EXC") else chk(outs[k])
+            if bad is not None:
+                mon.fail("under concurrent calls on one shared model: " + str(bad)[:80], case,
+                         "thread %d (%s): %s" % (k, str(desc)[:200], str(bad)[:300]))
+                return
 
 
 def _do_call(m, kind, call):
@@ -1208,6 +1414,28 @@ def mon_C15(rng, budget, tier):
         b_ = hexnums(rate_nums(kind, st, nums, ranks=ranks, scores=scores, tau=("F", st["tau"]), lim=("B", st["limit"])))
         if a != b_:
             mon.fail("omitted options differ from the model's own settings passed explicitly", case, "%s / %s" % (str(a)[:300], str(b_)[:300]))
+        # on ONE model object: calls with per-call options (accepted, or rejected for malformed ranks) followed by a
+        # call that omits them must still use the model's own settings
+        if i % 2 == 0 and not mon.full:
+            m = make_model(kind, st)
+            seq = []
+            for _ in range(rng.randint(1, 3)):
+                t = rng.choice([("I", 0), ("F", 1e-9 * beta), ("F", 3.0 * beta)])
+                b = rng.choice([("B", True), ("B", False)])
+                bad = rng.random() < 0.4
+                rk = ("L", [("S", True)] * len(nums)) if bad else ranks
+                sc = OMIT if bad else scores
+                seq.append({"tau": t, "lim": b, "rejected": bad})
+                try:
+                    call_rate(kind, st, nums, ranks=rk, scores=sc, tau=t, lim=b, model=m)
+                except Exception:  # noqa: BLE001
+                    pass
+            case = {"kind": kind, "st": st, "nums": nums, "ranks": ranks, "scores": scores, "earlier_calls_on_same_model": seq}
+            mon.case(case, True)
+            got = hexnums(call_rate(kind, st, nums, ranks=ranks, scores=scores, model=m)[0])
+            if got != a:
+                mon.fail("omitting the options does not use the model's own settings after earlier calls with per-call options",
+                         case, "fresh model %s / same model after %s: %s" % (str(a)[:300], seq, str(got)[:300]))
     return mon
 
 
@@ -1226,6 +1454,7 @@ def mon_C16(rng, budget, tier):
     while mon.evaluations < budget and not mon.full:
         kind = KINDS[i % 5]
         i += 1
+        api.pool(i % 2 == 0)
         st = gen.gen_state(rng, default_bias=0.7)
         shape = gen.gen_shape(rng)
         equal_sizes = i % 2 == 0
@@ -1276,6 +1505,7 @@ def mon_C16(rng, budget, tier):
             ps = [call_predict(op, kind, st, nums_s) for op in ("pwin", "pdraw", "prank")]
             if not _pred_close(pbase, ps):
                 mon.fail("predictions under a shift of all mu", case, "%s / %s" % (pbase, ps))
+    api.pool(False)
     return mon
 
 
@@ -1508,30 +1738,25 @@ def mon_C19(rng, budget, tier):
                     mon.fail("same accept/reject and exception class across models", case, repr(res))
         else:                     # rating objects: compare, hash, copy by the same rules
             mu, sg = rng.choice([0, 1.5, -2.0, 25.0, 7]), rng.choice([0, 1.0, 8.0, 2.5, 3])
-            case = {"clause": "rating rules", "mu": mu, "sigma": sg}
+            bump = rng.choice([0, 0, 1])
+            mu2, sg2 = mu + bump, sg
+            if rng.random() < 0.4:      # equal ordinals with different (mu, sigma): separates < from <=, == from "not <, not >"
+                (mu, sg), (mu2, sg2) = rng.choice(suites.tie_pairs())
+                if rng.random() < 0.5:
+                    mu, sg, mu2, sg2 = mu2, sg2, mu, sg
+            case = {"clause": "rating rules", "a": [mu, sg], "b": [mu2, sg2]}
             mon.case(case)
             outs = {}
             for k in KINDS:
                 a = RATING[k](mu, sg, "n")
-                b = RATING[k](mu + rng.choice([0, 0, 1]), sg)
+                b = RATING[k](mu2, sg2)
                 c_ = copy.copy(a)
                 d_ = copy.deepcopy(a)
-                outs[k] = (a == b, a < b, a <= b, a > b, a >= b, hash(a) == hash((a.id, a.mu, a.sigma)),
+                outs[k] = (a == b, a != b, a < b, a <= b, a > b, a >= b, hash(a) == hash((a.id, a.mu, a.sigma)),
                            (c_.id == a.id, c_.mu, c_.sigma, c_.name), (d_.id == a.id, d_.mu, d_.sigma, d_.name),
-                           a.ordinal(), repr(a).replace(MODEL[k].__name__, "K"))
-                rng.random()
-            # the same random draw must be used for all kinds: recompute b deterministically
-            outs = {}
-            bump = rng.choice([0, 0, 1])
-            for k in KINDS:
-                a = RATING[k](mu, sg, "n")
-                b = RATING[k](mu + bump, sg)
-                c_ = copy.copy(a)
-                d_ = copy.deepcopy(a)
-                outs[k] = (a == b, a < b, a <= b, a > b, a >= b, hash(a) == hash((a.id, a.mu, a.sigma)),
-                           (c_.id == a.id, c_.mu, c_.sigma, c_.name), (d_.id == a.id, d_.mu, d_.sigma, d_.name),
-                           a.ordinal(), repr(a).replace(MODEL[k].__name__, "K"))
-            if len(set(outs.values())) != 1 or not outs["PL"][5]:
+                           a.ordinal(), a.ordinal(1.5), repr(a).replace(MODEL[k].__name__, "K"),
+                           sorted([b, a]) == [b, a] or sorted([b, a])[0] is a)
+            if len(set(outs.values())) != 1 or not outs["PL"][6]:
                 mon.fail("ratings compare, hash and copy by the same rules", case, repr(outs)[:600])
     return mon
 
@@ -1590,6 +1815,39 @@ def mon_C20(rng, budget, tier):
     mon.case(case)
     if len(seen) != 5 * 3 * 100:
         mon.fail("fresh unique id", case, "%d distinct ids for %d constructions (global random re-seeded in between)" % (len(seen), 1500))
+    # stored states of the same player (same id, different numbers) meeting in one game / one deepcopy
+    for it in range(max(20, budget // 8)):
+        if mon.full:
+            break
+        kind = KINDS[it % 5]
+        st = gen.gen_state(rng)
+        m = make_model(kind, st)
+        n = rng.choice([2, 2, 3, 4])
+        nums = [[(rng.uniform(-20, 20) * st["beta"], gen.logu(rng, 1e-2, 10) * st["beta"]) for _ in range(rng.choice([1, 1, 2]))] for _ in range(n)]
+        orig = [[m.rating(mu, sg) for mu, sg in t] for t in nums]
+        flat = [p for t in orig for p in t]
+        for p in flat[1:]:
+            if rng.random() < 0.6:
+                p.id = flat[0].id          # an earlier stored state of the same player
+        rebuilt = [[m.rating(mu, sg) for mu, sg in t] for t in nums]
+        order = gen.random_weak_order(rng, n)
+        lim = rng.choice([True, True, False])
+        tau = rng.choice([0.0, st["beta"] / 50, st["beta"]])
+        case = {"clause": "same id, different stored states", "kind": kind, "st": st, "nums": nums,
+                "ids": [[p.id == flat[0].id for p in t] for t in orig], "ranks": order, "limit_sigma": lim, "tau": tau}
+        mon.case(case)
+        cp = copy.deepcopy(orig)
+        got = [[(p.mu, p.sigma, p.id) for p in t] for t in cp]
+        want = [[(p.mu, p.sigma, p.id) for p in t] for t in orig]
+        if got != want:
+            mon.fail("deepcopy preserves mu, sigma, id", case, "copy %s / source %s" % (got, want))
+            continue
+        ra = make_model(kind, st).rate(orig, ranks=order, limit_sigma=lim, tau=tau)
+        rb = make_model(kind, st).rate(rebuilt, ranks=order, limit_sigma=lim, tau=tau)
+        na = [[(hx(p.mu), hx(p.sigma)) for p in t] for t in ra]
+        nb = [[(hx(p.mu), hx(p.sigma)) for p in t] for t in rb]
+        if na != nb:
+            mon.fail("rebuilt ratings give bit-identical numbers", case, "original objects %s / rebuilt %s" % (na, nb))
     # leagues with a rebuild between games: bit-identical numbers
     while mon.evaluations < budget and not mon.full:
         kind = KINDS[i % 5]
@@ -1662,7 +1920,23 @@ def mon_C01(rng, budget, tier):
         keys = order_vals(ranks, scores)
         case = {"kind": kind, "st": st, "nums": nums, "ranks": ranks, "scores": scores, "tau": tau, "lim": lim}
         mon.case(case, gen.nontrivial_rate(c))
-        got = rate_nums(kind, st, nums, ranks=ranks, scores=scores, tau=tau, lim=lim)
+        # every third game goes through a model object that already served other calls with other per-call options
+        if i % 3 == 0:
+            m = make_model(kind, st)
+            warm = []
+            for _ in range(rng.randint(1, 2)):
+                wt_, wl_ = gen.gen_percall(rng, st)
+                if wt_[0] == "B":
+                    wt_ = OMIT
+                warm.append({"tau": wt_, "lim": wl_})
+                try:    # the earlier calls are only history (they may be outside the valid domain, e.g. sigma = 0 with tau = 0)
+                    call_rate(kind, st, nums, ranks=ranks, scores=scores, tau=wt_, lim=wl_, model=m)
+                except Exception:  # noqa: BLE001
+                    pass
+            case["earlier_calls_on_same_model"] = warm
+            got = call_rate(kind, st, nums, ranks=ranks, scores=scores, tau=tau, lim=lim, model=m)[0]
+        else:
+            got = rate_nums(kind, st, nums, ranks=ranks, scores=scores, tau=tau, lim=lim)
         t_eff, l_eff = eff_tau(st, tau), eff_limit(st, lim)
         infl = _inflated(nums, t_eff)
         srel = _tm_tie_sigma_rel(kind, st, infl, keys)
